@@ -145,8 +145,17 @@ def monitors(ctx, pid, s1, s2):
         ctx.problem("monitor", msg, detail, concrete=True, replay=replay, key="loop:" + key)
 
     by = {h["scenario"]: h for h in s1}
-    # (b) processor side and (e): recorded by stage 1 itself
+    stream_ok = {}
+    # (b) processor side and (e): recorded by stage 1 itself (registered under C14: the statements are about the cleanup tick)
     for h in s1:
+        stream_ok[h["scenario"]] = not (h.get("lmon") or [])
+        for i, l in enumerate(h["retries"]):
+            lo, hi = pending_interval(h, i)
+            ts = [lo - TICK] + l
+            if any(b - a > RETRY + TICK + 17 for a, b in zip(ts, ts[1:])) or (ts[-1] + RETRY + TICK <= hi and not (h["budget"] and i == 0)):
+                stream_ok[h["scenario"]] = False
+        if pid != "C14":
+            continue
         for line in h.get("lmon") or []:
             flag("stage1:" + line.split(":")[0] + ":" + " ".join(line.split()[1:7]), line, "observed on the real handleCleanup, scenario %s" % h["scenario"],
                  {"scenario": h["scenario"], "retries": h["retries"], "stream": h["stream"][:40], "ops": h["ops"][:12]})
@@ -162,11 +171,12 @@ def monitors(ctx, pid, s1, s2):
                 elif nxt - a > RETRY + TICK + 17 and a >= lo:        # one scenario delivers one tick 17 s late
                     flag("retry-late", "loop(a): consecutive retries of a pending message at %d s and %d s: more than 5 min 30 s apart (ticks every 30 s)" % (a, nxt),
                          "real handleCleanup, scenario %s" % h["scenario"], {"scenario": h["scenario"], "retries": l})
-    # (a) cadence and (b) dispatcher side: on the forwards observed in stage 2
+    # (a) cadence and (b) dispatcher side: on the forwards observed in stage 2 (registered under C17; the cadence only when the
+    # request stream of stage 1 kept its own contract - otherwise the defect is the processor's and C14 reports it)
     gaps = []
     for r in s2:
         h = by.get(r["scenario"])
-        if h is None or r.get("aborted"):
+        if h is None or r.get("aborted") or pid != "C17":
             continue
         key = None
         fw = []
@@ -183,6 +193,8 @@ def monitors(ctx, pid, s1, s2):
                 flag("window", "loop(b): the watcher received re-observation requests for one transaction at %d s and %d s, not more than 11 minutes apart" % (a, b),
                      "real dispatcher fed with the real cleanup's requests, %s / %s" % (r["scenario"], r["variant"]), rep)
         lo, hi = pending_interval(h, 0)
+        if not stream_ok.get(r["scenario"]):
+            continue
         if r["drain_at"] > 0:
             lo = max(lo, r["drain_at"])           # the cadence premise "the watcher queue has room" holds from here on
         pts = [lo] + [f for f in fw if f >= lo]
@@ -226,15 +238,17 @@ def run(ctx, pid):
         return
     for r in s2:
         r["bufsize"] = consts[0]["bufsize"] if consts else None
-        for line in r.get("mon") or []:
+        for line in (r.get("mon") or []) if pid == "C17" else []:
             ctx.problem("monitor", line, "real dispatcher fed with the real cleanup's requests, %s / %s" % (r["scenario"], r["variant"]), concrete=True,
                         replay={"scenario": r["scenario"], "variant": r["variant"], "events": r["events"][:60]}, key="loop:" + " ".join(line.split()[:6]))
+    seen = set()
     for h in s1:
         for line in h.get("mon") or []:
             c = P.mon_class(line)
             if line.startswith("processor blocked"):
                 c = pid
-            if c == pid:
+            if c == pid and P.mon_key(pid, line) not in seen:
+                seen.add(P.mon_key(pid, line))
                 ctx.problem("monitor", line, "real handlers, re-observation loop scenario %s" % h["scenario"], concrete=True, replay=P.replay_obj(h, line), key=P.mon_key(pid, line))
     nm = monitors(ctx, pid, s1, s2)
     by = {h["scenario"]: h for h in s1}
@@ -249,6 +263,14 @@ def run(ctx, pid):
             ctx.problem("correspondence", "composed-model evaluation (re-observation loop)", o[-800:])
             continue
         pi, di = core.zlist(m)
+        if pi != -2:
+            # C14 owns the request stream of the cleanup tick, C17 the dispatcher's answers to it (given the stream as it is: a deviating
+            # stream shifts the dispatcher steps of the model too, which is not the dispatcher's fault)
+            if pid == "C14":
+                di = -1
+            else:
+                di = di if pi < 0 else -1
+                pi = -1
         if pi == -2:
             ctx.problem("correspondence", "a recorded Keccak256 result is not the value of the Gallina keccak256", "loop scenario %s" % h["scenario"])
         elif pi >= 0 or di >= 0:
